@@ -1,6 +1,7 @@
 import KoordVerif.Model.C20
 import KoordVerif.Proofs.C20ExtHist
 import KoordVerif.Proofs.C20ExtHistQ
+import KoordVerif.Proofs.C20ExtRace
 /-
 C20 — property theorems (DESIGN.md §4 C20) over the executable model `Model/C20.lean`.
 
@@ -774,5 +775,118 @@ example : get (overlay [([7, 0], 2), ([7, 1, 8], 10), ([7, 2, 8], 20)] [([7, 0],
 -- lastGood on a history ending with two unparsable updates
 example : lastGood [.absent, .ok none [], .bad, .bad] = some (.ok none []) := by decide
 end Examples
+
+/-! ### 8. lazy initialisation of the cache (first reconcile after a start / leader change) vs. ConfigMap events -/
+
+/-- the delivery statement of §7 with restarts whose initial ConfigMap Create event is handled LATE (after any number of
+    reconciles, the first of which initialises the cache lazily from the ConfigMap it reads, and after further updates):
+    every node that is not pending carries exactly the spec recomputed from the cache. -/
+theorem nonpending_nodeslo_correct_late_cm_event (d : Defaults) (parse : Ident → CM) (ss : List RStep) (n : Nat) (ls : Labels)
+    (hq : n ∉ (rrun d parse (QWorld.init d) ss).q)
+    (hn : lookupA (rrun d parse (QWorld.init d) ss).w.nodes n = some ls) :
+    lookupA (rrun d parse (QWorld.init d) ss).w.slos n = some (nodeSpec (rrun d parse (QWorld.init d) ss).w.cfg ls) ∧
+    (rrun d parse (QWorld.init d) ss).w.avail = true := by
+  have h := rrun_inv d parse ss (QWorld.init d) (qinit_inv d) n hq
+  constructor
+  · have h1 := h.1
+    unfold Correct at h1
+    rw [h1, hn]; rfl
+  · cases ha : (rrun d parse (QWorld.init d) ss).w.avail with
+    | true => rfl
+    | false => rw [h.2 ha] at hn; cases hn
+
+theorem quiescent_delivery_late_cm_event (d : Defaults) (parse : Ident → CM) (ss : List RStep)
+    (hq : (rrun d parse (QWorld.init d) ss).q = []) : Inv (rrun d parse (QWorld.init d) ss).w :=
+  invQ_quiescent _ (rrun_inv d parse ss (QWorld.init d) (qinit_inv d)) hq
+
+/-- … and the (available) cache tracks the CURRENT ConfigMap text, whether it was filled by the lazy init or by an event. -/
+theorem cache_tracks_latest_data_late_cm_event (d : Defaults) (parse : Ident → CM) (ss : List RStep) (i : Ident)
+    (ha : (rrun d parse (QWorld.init d) ss).w.avail = true) (hcm : (rrun d parse (QWorld.init d) ss).w.cm = some i) :
+    Tracks d (rrun d parse (QWorld.init d) ss).w.cfg (parse i) :=
+  rrun_cinv d parse ss (QWorld.init d) (init_cinv d parse) ha i hcm
+
+/-- END TO END with late ConfigMap events (system section): "otherwise the cluster-wide value if set", over sequences of
+    updates that race the first reconcile after a start. -/
+theorem delivered_system_layering_late_cm_event (d : Defaults) (parse : Ident → CM) (ss : List RStep) (n : Nat) (ls : Labels)
+    (i : Ident) (c : Option Flat) (pre post : List NodeEntry) (e : NodeEntry) (p : Path)
+    (hq : n ∉ (rrun d parse (QWorld.init d) ss).q)
+    (hn : lookupA (rrun d parse (QWorld.init d) ss).w.nodes n = some ls)
+    (hcm : (rrun d parse (QWorld.init d) ss).w.cm = some i)
+    (hsec : (parse i).sys = .ok c (pre ++ e :: post))
+    (hpre : ∀ x ∈ pre, x.sel.matches ls = false) (he : e.sel.matches ls = true)
+    (hd : get d.sys tnbPath = some 0) (hc : RootObj true c) (hsr : RootObj true e.strat) :
+    ∃ spec, lookupA (rrun d parse (QWorld.init d) ss).w.slos n = some spec ∧
+      (spec[3]?).map (fun t => get t p) = some (lay true e.strat (lay true c (get d.sys)) p) := by
+  have h := nonpending_nodeslo_correct_late_cm_event d parse ss n ls hq hn
+  have ht := cache_tracks_latest_data_late_cm_event d parse ss i h.2 hcm
+  refine ⟨_, h.1, ?_⟩
+  simp only [nodeSpec, List.getElem?_cons_succ, List.getElem?_cons_zero, Option.map_some]
+  rw [fresh_section_layering true d.sys _ _ c pre post e ls p ht.2.2.2.1 hsec hpre he (fun _ => hd) hc hsr]
+
+/-- the queue model's `reco` treats IsCfgAvailable as ONE step; that is the `atomic` shape of the small-step model. -/
+theorem atomic_lazy_is_ensureAvail (d : Defaults) (parse : Ident → CM) (w : World) (pending : List Ident) (pc : LPc) :
+    let s := raceStep .atomic d parse { cfg := w.cfg, avail := w.avail, cm := w.cm, pending := pending, pc := pc } .lazy
+    s.cfg = (ensureAvail d parse w).cfg ∧ s.avail = (ensureAvail d parse w).avail ∧ s.cm = w.cm ∧ s.pending = pending := by
+  by_cases ha : w.avail = true <;> simp [raceStep, lazySync, ensureAvail, ha]
+
+/-- SMALL-STEP (one step = one critical section of IsCfgAvailable or of the event handler, any schedule, any number of
+    ConfigMap writes / deletions, after a start with or without ConfigMap): if IsCfgAvailable keeps check–read–sync in one
+    critical section, or checks `available` AGAIN under the lock that covers its sync, then whenever the cache is available
+    and no ConfigMap event is pending, the cache is the merge of the LATEST ConfigMap — a lazy init can never put back an
+    older object over a newer event. -/
+theorem lazy_init_tracks_latest (sh : LazyShape) (hsafe : sh.safe = true) (d : Defaults) (parse : Ident → CM)
+    (cm0 : Option Ident) (as : List RAct) (i : Ident)
+    (ha : (raceRun sh d parse (RaceSt.start d cm0) as).avail = true)
+    (hp : (raceRun sh d parse (RaceSt.start d cm0) as).pending = [])
+    (hcm : (raceRun sh d parse (RaceSt.start d cm0) as).cm = some i) :
+    Tracks d (raceRun sh d parse (RaceSt.start d cm0) as).cfg (parse i) :=
+  (raceRun_rinv sh hsafe d parse as _ (start_rinv d parse cm0)).1 ha hp i hcm
+
+/-- … and a later event still repairs nothing that is not broken: syncing the latest ConfigMap again changes nothing. -/
+theorem lazy_init_then_resync_is_noop (sh : LazyShape) (hsafe : sh.safe = true) (d : Defaults) (parse : Ident → CM)
+    (cm0 : Option Ident) (as : List RAct) (i : Ident)
+    (ha : (raceRun sh d parse (RaceSt.start d cm0) as).avail = true)
+    (hp : (raceRun sh d parse (RaceSt.start d cm0) as).pending = [])
+    (hcm : (raceRun sh d parse (RaceSt.start d cm0) as).cm = some i) :
+    sync d (raceRun sh d parse (RaceSt.start d cm0) as).cfg (some (parse i)) = (raceRun sh d parse (RaceSt.start d cm0) as).cfg :=
+  sync_idem_of_tracks d _ _ (lazy_init_tracks_latest sh hsafe d parse cm0 as i ha hp hcm)
+
+/-- the SPLIT shape (check under the lock; unlock; read; lock; sync without looking at `available` again) violates it:
+    start with ConfigMap text 1; the lazy init checks and reads text 1; the late Create event is handled; the ConfigMap is
+    updated to text 0 (system section removed) and that event is handled; then the lazy init syncs the OLDER text 1 over it.
+    Nothing is pending, the cache is available — and holds the superseded entry until the ConfigMap changes again. -/
+theorem lazy_init_split_counterexample :
+    ¬ (∀ (d : Defaults) (parse : Ident → CM) (cm0 : Option Ident) (as : List RAct) (i : Ident),
+        (raceRun .split d parse (RaceSt.start d cm0) as).avail = true →
+        (raceRun .split d parse (RaceSt.start d cm0) as).pending = [] →
+        (raceRun .split d parse (RaceSt.start d cm0) as).cm = some i →
+        Tracks d (raceRun .split d parse (RaceSt.start d cm0) as).cfg (parse i)) := by
+  intro h
+  have ht := h hxD hxParse (some [0, 1]) [.lazy, .lazy, .handle, .write [0, 0], .handle, .lazy] [0, 0]
+    (by decide) (by decide) (by decide)
+  exact absurd (ht.2.2.2.1 (by decide)) (by decide)
+
+-- the same schedule is harmless for the two safe shapes (the cache ends on the default: text 0 has no system section) …
+example : (raceRun .recheck hxD hxParse (RaceSt.start hxD (some [0, 1])) [.lazy, .lazy, .handle, .write [0, 0], .handle, .lazy]).cfg
+    = Cfg.default hxD ∧
+    (raceRun .atomic hxD hxParse (RaceSt.start hxD (some [0, 1])) [.lazy, .lazy, .handle, .write [0, 0], .handle, .lazy]).cfg
+    = Cfg.default hxD := by decide
+-- … while the split shape ends with text 1's cluster value 28 := 5 in the cache although the ConfigMap says text 0
+example : get (raceRun .split hxD hxParse (RaceSt.start hxD (some [0, 1]))
+      [.lazy, .lazy, .handle, .write [0, 0], .handle, .lazy]).cfg.sys.cluster [28] = some 5 ∧
+    (raceRun .split hxD hxParse (RaceSt.start hxD (some [0, 1])) [.lazy, .lazy, .handle, .write [0, 0], .handle, .lazy]).cm
+      = some [0, 0] := by decide
+-- the harness's race step in the queue model: restart (Create event late), node 1's reconcile initialises the cache from
+-- text 1, the late Create event, the Update to text 0, node 1 reconciled again: it is back on the default (28 unset)
+example : (rrun hxD hxParse (QWorld.init hxD)
+      [.q (.ev (.cmCreate [0, 1])), .q (.ev (.nodeAdd 1 [(1, 2)])), .q (.reco 1), .restartLate, .q (.reco 1), .cmLate,
+       .q (.ev (.cmUpdate [0, 0])), .q (.reco 1)]).q = [] ∧
+    (lookupA (rrun hxD hxParse (QWorld.init hxD)
+      [.q (.ev (.cmCreate [0, 1])), .q (.ev (.nodeAdd 1 [(1, 2)])), .q (.reco 1), .restartLate, .q (.reco 1), .cmLate,
+       .q (.ev (.cmUpdate [0, 0])), .q (.reco 1)]).w.slos 1).map (fun spec => get (spec.getD 3 []) [28]) = some none ∧
+    (lookupA (rrun hxD hxParse (QWorld.init hxD)
+      [.q (.ev (.cmCreate [0, 1])), .q (.ev (.nodeAdd 1 [(1, 2)])), .q (.reco 1), .restartLate, .q (.reco 1), .cmLate]).w.slos 1).map
+        (fun spec => get (spec.getD 3 []) [28]) = some (some 5) := by decide
+
 
 end KoordVerif.C20
